@@ -6,14 +6,15 @@
 
     [check] (nothing here depends on the ORDER of the members of the observed dictionaries: no property states
     the order in which make_empty fills the content, only that a round trip keeps whatever order there is):
-      * [to_content qtok_dec e] and the observed content are equal AS MAPS: the same top-level members; the header
+      * [to_content_r qtok_dec reo e] and the observed content are equal AS MAPS: the same top-level members; the header
         fields (shape, affine, reorient transform, slice dim, version) equal; every base dictionary has the same
         sub-dictionaries; the class dictionaries are equal as maps (distinct keys);
       * [Content.check_valid] accepts the observed content iff to_json succeeded (any exception = refusal), and the
         model content gets the same verdict;
       * when to_json succeeded, [Json.parse] of the text IS the observed content (members in the same order: the
         round trip of C09 keeps key order); the text itself (indentation, separators) is not compared;
-      * [of_content tokq_dec] of the observed content is the case's extension as an unordered map. *)
+      * [of_content tokq_dec] of the observed content is the case's extension as an unordered map, and
+        [reo_of_content tokq_dec] of it is the case's reorientation transform. *)
 From Coq Require Import List Bool Arith NArith ZArith QArith.
 From DV Require Import Common.Res Common.Str Common.Jv.
 From DV Require Import Ext.Types Ext.Classes Ext.Seq Ext.Model Ext.Corr.
@@ -23,6 +24,7 @@ Local Open Scope nat_scope.
 
 Record case := mk_case {
   c_ext : jext;
+  c_reo : option (list (list Q));   (* the reorientation transform of the extension ([None] = null) *)
   c_content : jv;
   c_json : res unit;        (* to_json(): Ok, or the exception class *)
   c_text : str }.           (* the text when Ok, [] otherwise *)
@@ -69,7 +71,7 @@ Definition content_eqb (model observed : jv) : bool :=
 Definition res_unit_eqb (a b : res unit) : bool := Bool.eqb (is_ok a) (is_ok b).
 
 Definition check (c : case) : bool :=
-  let m := to_content qtok_dec (c_ext c) in
+  let m := to_content_r qtok_dec (c_reo c) (c_ext c) in
   content_eqb m (c_content c)
   && res_unit_eqb (CM.check_valid (c_content c)) (c_json c)
   && res_unit_eqb (CM.check_valid m) (c_json c)
@@ -80,10 +82,16 @@ Definition check (c : case) : bool :=
   && match of_content tokq_dec (c_content c) with
      | Some e' => ext_eqb (c_ext c) e'
      | None => false
+     end
+  && match reo_of_content tokq_dec (c_content c), c_reo c with
+     | Some None, None => true
+     | Some (Some m), Some m' => llq_eqb m m'
+     | _, _ => false
      end.
 
 (** what the model says, for the replay file *)
 Definition show (c : case) :=
-  (to_content qtok_dec (c_ext c), CM.check_valid (c_content c), CM.check_valid (to_content qtok_dec (c_ext c)),
+  (to_content_r qtok_dec (c_reo c) (c_ext c), CM.check_valid (c_content c), CM.check_valid (to_content_r qtok_dec (c_reo c) (c_ext c)),
+   reo_of_content tokq_dec (c_content c),
    match JM.parse (c_text c) with Some j => Some (jv_eqb j (c_content c)) | None => None end,
    match of_content tokq_dec (c_content c) with Some e' => Some (ext_eqb (c_ext c) e') | None => None end).
